@@ -23,6 +23,7 @@ func init() {
 			ruleBudgetFresh(c, r, "")
 			ruleLookahead(c, r, "")
 			ruleOpMargin(c, r, "")
+			ruleRawCopy(c, r, "")
 			ruleFlushFailStop(c, r, "")
 			ruleLoopAdvanceExact(c, r, "")
 			ruleMatcherGuard(c, r, "", false)
